@@ -1,6 +1,154 @@
-//! C10 harness commands (stub).
-use std::io::Write;
+//! C10 harness: converted balance reports through the real `Ledger::balance`.
+//!
+//! case  : `<id> qs=((T U|H (d Y M D) (start?) (end?)) ...) pdb=(<echoed>) db=<enc text|~> ledger=<enc text>`
+//!         (`(start?)` is `()` or `((d Y M D))`)
+//! output: `<id> tree=(...) pdb=(...) result=<(ok (txns ...) (bal ...))|...>
+//!          qs=((T U|H now start end (ok <balance>)|(err Kind)) ...)
+//!          rates=((T (d Y M D) C (ok ((T n m s)))|(err Kind)) ...)`
+//! `rates` holds `Ledger::eval("1 C", {date, exchange: T})` for every target, every commodity held in the
+//! ledger and every date that a query can need (each `now`, each transaction date): the property oracle
+//! recomputes the converted balances from these single conversions and from the transactions.
+use std::collections::BTreeSet;
+use std::io::{BufRead, Write};
 
-pub fn run(_args: &[String], _out: &mut dyn Write) -> i32 {
+use bumpalo::Bump;
+use okane_core::report::{self, query, ReportContext};
+
+use crate::c09::{eval_sx, field, list_items, parse_date, query_err_kind, split_fields, write_db};
+use crate::proc;
+use crate::sx::{self, enc};
+
+struct Q {
+    target: String,
+    historical: bool,
+    now: chrono::NaiveDate,
+    start: Option<chrono::NaiveDate>,
+    end: Option<chrono::NaiveDate>,
+    raw: String,
+}
+
+fn parse_opt_date(s: &str) -> Option<chrono::NaiveDate> {
+    let it = list_items(s);
+    it.first().and_then(|d| parse_date(d))
+}
+
+fn parse_q(s: &str) -> Option<Q> {
+    let it = list_items(s);
+    if it.len() != 5 {
+        return None;
+    }
+    Some(Q {
+        target: sx::dec(&it[0])?,
+        historical: it[1] == "H",
+        now: parse_date(&it[2])?,
+        start: parse_opt_date(&it[3]),
+        end: parse_opt_date(&it[4]),
+        raw: format!("{} {} {} {} {}", it[0], it[1], it[2], it[3], it[4]),
+    })
+}
+
+pub fn run(_args: &[String], out: &mut dyn Write) -> i32 {
+    let stdin = std::io::stdin();
+    for line in stdin.lock().lines() {
+        let line = line.unwrap();
+        let (id, fs) = split_fields(&line);
+        let (Some(qs), Some(db), Some(ledger)) = (field(&fs, "qs"), field(&fs, "db"), field(&fs, "ledger")) else {
+            writeln!(out, "{} bad-case", id).unwrap();
+            continue;
+        };
+        let pdb = field(&fs, "pdb").unwrap_or("()").to_string();
+        let qs: Vec<Q> = list_items(qs).iter().filter_map(|q| parse_q(q)).collect();
+        let db_text = sx::dec(db).unwrap_or_default();
+        let text = sx::dec(ledger).unwrap_or_default();
+        let files: proc::Files = vec![("/r/main.ledger".to_string(), text)];
+        let root = "/r/main.ledger";
+        let tree = match proc::load_entries(&files, root) {
+            Ok(l) => l.entries.iter().map(|e| e.3.clone()).collect::<Vec<_>>().join(" "),
+            Err(k) => {
+                writeln!(out, "{} tree=() pdb={} result=(loaderr {}) qs=() rates=()", id, pdb, k).unwrap();
+                continue;
+            }
+        };
+        let db_path = if db_text.is_empty() { None } else { Some(write_db("C10", &db_text)) };
+        let dbp = db_path.clone();
+        let files2 = files.clone();
+        let r = sx::catch(move || {
+            let arena = Bump::new();
+            let mut ctx = ReportContext::new(&arena);
+            let opts = report::ProcessOptions { price_db_path: dbp };
+            let processed = report::process(&mut ctx, proc::fake_loader(&files2, root), &opts);
+            let ret = match processed {
+                Err(e) => (
+                    format!("(processerr {})", enc(proc::render_chain(&e).lines().next().unwrap_or(""))),
+                    String::new(),
+                    String::new(),
+                ),
+                Ok(mut ledger) => {
+                    let txns: Vec<String> = ledger.transactions().map(proc::txn_sx).collect();
+                    let mut commodities: BTreeSet<String> = BTreeSet::new();
+                    let mut txn_dates: BTreeSet<chrono::NaiveDate> = BTreeSet::new();
+                    for t in ledger.transactions() {
+                        txn_dates.insert(t.date);
+                        for p in t.postings.iter() {
+                            for (c, _) in p.amount.clone().into_values() {
+                                commodities.insert(c.as_str().to_string());
+                            }
+                        }
+                    }
+                    let bal = ledger
+                        .balance(&ctx, &query::BalanceQuery::default())
+                        .map(|b| proc::balance_sx(b.into_owned()))
+                        .unwrap_or_else(|e| format!("(queryerr {})", query_err_kind(&e)));
+                    let mut qout = Vec::new();
+                    let mut needed: BTreeSet<(String, chrono::NaiveDate)> = BTreeSet::new();
+                    for q in &qs {
+                        let res = match ctx.commodity(&q.target) {
+                            None => "(err CommodityNotFound)".to_string(),
+                            Some(target) => {
+                                let strategy = if q.historical {
+                                    query::ConversionStrategy::Historical
+                                } else {
+                                    query::ConversionStrategy::UpToDate { now: q.now }
+                                };
+                                let bq = query::BalanceQuery {
+                                    conversion: Some(query::Conversion { strategy, target }),
+                                    date_range: query::DateRange { start: q.start, end: q.end },
+                                };
+                                needed.insert((q.target.clone(), q.now));
+                                for d in &txn_dates {
+                                    needed.insert((q.target.clone(), *d));
+                                }
+                                match ledger.balance(&ctx, &bq) {
+                                    Ok(b) => format!("(ok {})", proc::balance_sx(b.into_owned())),
+                                    Err(e) => format!("(err {})", query_err_kind(&e)),
+                                }
+                            }
+                        };
+                        qout.push(format!("({} {})", q.raw, res));
+                    }
+                    let mut rates = Vec::new();
+                    for (t, d) in &needed {
+                        for c in &commodities {
+                            let res = eval_sx(&mut ledger, &ctx, &format!("1 {}", c), *d, Some(t));
+                            rates.push(format!("({} {} {} {})", enc(t), crate::tree::date(*d), enc(c), res));
+                        }
+                    }
+                    (format!("(ok (txns {}) (bal {}))", txns.join(" "), bal), qout.join(" "), rates.join(" "))
+                }
+            };
+            ret
+        });
+        if let Some(p) = db_path {
+            let _ = std::fs::remove_file(p);
+        }
+        match r {
+            Ok((res, qs, rates)) => {
+                writeln!(out, "{} tree=({}) pdb={} result={} qs=({}) rates=({})", id, tree, pdb, res, qs, rates).unwrap()
+            }
+            Err(msg) => {
+                writeln!(out, "{} tree=({}) pdb={} result=(panic {}) qs=() rates=()", id, tree, pdb, enc(&msg)).unwrap()
+            }
+        }
+    }
     0
 }
